@@ -15,9 +15,9 @@ Fixpoint p_accepted (d : pdb) (h : list pop) : bool :=
    its inherited nodes are looked up under the child's own sequence number 0, i.e. in the
    finalized key space, where they are not (yet): unreadable until Finalize(2) relocates them *)
 Definition h_pipe : list pop :=
-  [PCommit 2 1 2 None [(2, 1)] [];
-   PCommit 2 1 3 None [(3, 1); (6, 1)] [((2, 1), 2); ((2, 2), 3)];
-   PCommit 3 1 3 (Some (2, 3)) [] [((2, 1), 2); ((2, 2), 3)]].
+  [PCommit 2 1 2 None [(2, 1)] [] [];
+   PCommit 2 1 3 None [(3, 1); (6, 1)] [((2, 1), 2); ((2, 2), 3)] [];
+   PCommit 3 1 3 (Some (2, 3)) [] [((2, 1), 2); ((2, 2), 3)] []].
 
 Definition h_pipe_spec : list op :=
   [OCommit 2 1 2 None [(2, 1)] [] [] [] [];
@@ -32,9 +32,9 @@ Lemma pathbadger_pipelined_nonzero_seqno_refuted_l :
   p_status (p_run pdb0 h_pipe) 2 3 = 1 /\
   p_status (p_run pdb0 (h_pipe ++ [PFinalize 2 [3]])) 3 3 = 1 /\
   (* a child of the FIRST candidate (sequence number 0) is readable at once *)
-  p_status (p_run pdb0 [PCommit 2 1 3 None [(3, 1); (6, 1)] [((2, 1), 2); ((2, 2), 3)];
-                        PCommit 2 1 2 None [(2, 1)] [];
-                        PCommit 3 1 3 (Some (2, 3)) [] [((2, 1), 2); ((2, 2), 3)]]) 3 3 = 1.
+  p_status (p_run pdb0 [PCommit 2 1 3 None [(3, 1); (6, 1)] [((2, 1), 2); ((2, 2), 3)] [];
+                        PCommit 2 1 2 None [(2, 1)] [] [];
+                        PCommit 3 1 3 (Some (2, 3)) [] [((2, 1), 2); ((2, 2), 3)] []]) 3 3 = 1.
 Proof. vm_compute. repeat split; reflexivity. Qed.
 
 (* Prune succeeds only on the earliest, finalized, non-last version and advances earliest by
